@@ -12,6 +12,7 @@ import math
 from .. import env
 from .. import gen, build, mcase
 from ..refmodel import RefHMM
+from ..mapmodel import MapModel
 
 ID = "C01"
 CASES = {"quick": 12000, "thorough": 300000}
@@ -33,7 +34,7 @@ ANCHORS = [("leuvenmapmatching/matcher/base.py", "BaseMatching.update"),
            ("leuvenmapmatching/matcher/distance.py", "DistanceMatcher.logprob_trans")]
 FLOORS = {"optimum_comparisons_nontrivial": 500, "early_stops": 50, "no_start_candidate": 30, "dp_vs_bruteforce": 20,
           "family:simple": 300, "family:simple_nodes": 300, "family:distance": 300, "tightened_cases": 300,
-          "paths_rescored_by_reference": 1000, "threshold_hit_exactly": 20, "reused_matcher_cases": 500, "debug_level_cases": 500, "grown_map_cases": 300}
+          "paths_rescored_by_reference": 1000, "threshold_hit_exactly": 20, "reused_matcher_cases": 500, "debug_level_cases": 500, "grown_map_cases": 300, "tiny_scale_cases": 300, "map_distances_checked_against_exact_geometry": 50000}
 ASSUMPTIONS = ["the distance/projection of an observation on a state is taken from the map's own primitive so that threshold decisions are "
                "bit-identical (those primitives are judged by C05/C13); everything else (states, successors, scores, stop rule, DP) is independent",
                "cases in which a normalised probability falls within 1e-9 relative of min_prob_norm (or exactly on it: the reference's own score formula "
@@ -61,6 +62,17 @@ def gen_case(rng, i, tier):
     # the optimum does not depend on the log level: a fraction of the cases runs with the package logger at DEBUG, where
     # candidates that fail a cut-off are kept in the lattice as stopped matchings
     case["debug"] = rng.random() < 0.15
+    if rng.random() < 0.1 and not case["map"].get("latlon"):
+        # tiny coordinate units (raw degrees, kilometres, normalised coordinates): everything scaled exactly by 2^-k
+        sc = 2.0 ** -rng.choice([7, 10, 14, 17])
+        case["map"] = gen.transform_map(case["map"], sc)
+        case["trace"] = gen.transform_trace(case["trace"], sc)
+        if case.get("pre_trace"):
+            case["pre_trace"] = gen.transform_trace(case["pre_trace"], sc)
+        for key in ("obs_noise", "obs_noise_ne", "dist_noise", "dist_noise_ne", "max_dist", "max_dist_init"):
+            if case["cfg"].get(key) is not None:
+                case["cfg"][key] *= sc
+        case["tiny"] = True
     return case
 
 
@@ -109,10 +121,26 @@ def judge(case, mp, mt, res):
     cols = ref.run(path)
     out = []
     stats = {"ref": ref, "cols": cols}
+    # the reference takes distances from the map's own primitive (bit-identical thresholds); that trust is checked at run
+    # time: every distance the reference used is compared with the exact geometry of the generated map
+    model = MapModel(case["map"])
+    fam = case["cfg"]["family"]
+    nchk = 0
+    for (s, i), (d, pi, t) in ref._emis_cache.items():
+        if isinstance(s, tuple) and s in model.edgeset:
+            de, te, qe = model.pt_edge(tuple(path[i][:2]), s)
+            nchk += 1
+            if not abs(d - de) <= model.tol_edge(path[i], s, de):
+                out.append((f"geometry:map-primitive-differs-from-exact-geometry:{'latlon' if model.latlon else 'planar'}",
+                            f"distance of observation {i} {tuple(path[i][:2])} to road {s} {model.coords[s[0]]}-{model.coords[s[1]]}: "
+                            f"the map says {d!r}, exact {de!r}"))
+                break
+    stats["geometry_checked"] = nchk
+    if out:
+        return out, stats
     if ref.borderline:
         return None, stats
     states, idx = res
-    fam = case["cfg"]["family"]
     if not cols[0]:
         if not (states == [] and idx == 0):
             out.append((f"nonempty-result-without-admissible-start:{fam}", f"returned {states!r}, {idx}; reference finds no admissible start candidate"))
@@ -165,6 +193,9 @@ def check_case(ctx, case):
         if mt.early_stop_idx is not None or True:
             pass
     verdicts, stats = judge(case, mp, mt, res)
+    ctx.count("map_distances_checked_against_exact_geometry", stats.get("geometry_checked", 0))
+    if case.get("tiny"):
+        ctx.count("tiny_scale_cases")
     if verdicts is None:
         ctx.count("skipped_borderline")
         return
